@@ -16,7 +16,7 @@ try:
             print(v["msg"])
     print("time %.1fs smt %dms" % (r.time_s, r.smt_ms), r.verus_summary)
     print("stats", r.stats)
-    if "-k" in sys.argv:
+    if "-k" in sys.argv and r.generated:
         shutil.copy(r.generated, "/tmp/last_unit.rs"); print("kept /tmp/last_unit.rs")
     if "-t" in sys.argv:
         print("\n".join(r.trusted)); print("\n".join(r.lifts))
